@@ -159,9 +159,10 @@ def Staged.run : Staged → Req → Outcome
   | .detect ex cands, req => finishWith ex cands req
 
 def stagedCurly (cfg : Config) (path : Str) : Staged :=
-  match Curly.detectWebService (tokenize path) cfg.services none with
-  | none => .notFound
-  | some (svc, _) =>
+  match Curly.detectWebService E (tokenize path) cfg.services none with
+  | none => .panic "curly.score"
+  | some none => .notFound
+  | some (some (svc, _)) =>
     match Curly.candidates E svc.built (tokenize path) with
     | none => .panic "curly.match"
     | some cs =>
@@ -186,13 +187,16 @@ theorem routeCurly_staged (cfg : Config) (req : Req) :
     (routeCurly E cfg req).1 = (stagedCurly E cfg req.path).run req := by
   rw [routeCurly_fst]
   unfold stagedCurly
-  cases Curly.detectWebService (tokenize req.path) cfg.services none with
+  cases Curly.detectWebService E (tokenize req.path) cfg.services none with
   | none => rfl
-  | some x =>
-    obtain ⟨svc, sc⟩ := x
-    simp only
-    rw [curlyAfterSvc_eq]
-    cases Curly.candidates E svc.built (tokenize req.path) <;> rfl
+  | some d =>
+    cases d with
+    | none => rfl
+    | some x =>
+      obtain ⟨svc, sc⟩ := x
+      simp only
+      rw [curlyAfterSvc_eq]
+      cases Curly.candidates E svc.built (tokenize req.path) <;> rfl
 
 theorem routeJsr_staged (cfg : Config) (req : Req) :
     (routeJsr E cfg req).1 = (stagedJsr E cfg req.path).run req := by
